@@ -6,7 +6,9 @@
    a master leader change, a master fail-over to a fresh instance restored from a snapshot, the master API calls
    (registerCurator, registerTractserver, curatorHeartbeat, newPartition, lookup), the phases of the curator's
    initialize (each master reply may be lost), one heartbeat round (with SyncPartitions), one partition-monitor
-   round, a curator leader change, a curator node restart.  [run evs] is the world after the events, [h_cids],
+   round, a curator leader change, a curator node restart, raft calling FSM.Snapshot() on the leader (EvSnapTake: the
+   state is serialised at that index) and, any number of events later, Snapshoter.Save() plus a replica that is not
+   ahead of the snapshot restoring it and replaying the log from the snapshot's index (EvSnapInstall).  [run evs] is the world after the events, [h_cids],
    [h_tsids], [h_parts] are ghost lists of everything the master ever returned.
    [trace_safe evs] excludes exactly the trigger of finding F7 (a snapshot installed onto a live replica that is
    read-only while the snapshot is not; also a snapshot with a zero counter / empty table, which gob would not
@@ -90,6 +92,17 @@ Proof. vm_compute. repeat split; reflexivity. Qed.
 Example demo_after :
   let w' := run (demo ++ [EvCHeartbeat 1 false]) in
   c_parts (w_cur w') = [1; 2; 3] /\ w_fatal w' = false /\ m_lookup (leader_st w') 1 = ROk 2.
+Proof. vm_compute. repeat split; reflexivity. Qed.
+
+(* Snapshot() at index 2, three more commands, THEN Save(): restarted replica 1 restores it, replays the tail and
+   takes over; nothing is applied twice (the next ids continue after 3 / partition 3) *)
+Definition demo_late_save : list event :=
+  [EvCmd CRegCur; EvCmd CRegCur; EvSnapTake; EvCmd (CNewPart 1); EvCmd CRegCur; EvCmd (CNewPart 2);
+   EvRestart 1; EvSnapInstall 1; EvLeader 1; EvCmd CRegCur; EvCmd (CNewPart 3)].
+Example demo_late_save_ok :
+  trace_safe demo_late_save = true /\
+  h_cids (run demo_late_save) = [1; 2; 3; 4] /\ h_parts (run demo_late_save) = [(1, 1); (2, 2); (3, 3)] /\
+  w_snap (run demo_late_save) = Some (2%nat, replay [CRegCur; CRegCur]).
 Proof. vm_compute. repeat split; reflexivity. Qed.
 
 (* the F7 witnesses really contain the excluded trigger *)
